@@ -1526,7 +1526,7 @@ fn interpolate_string(
         // `}` at the end).
         let directive = &s[(cur_slot_start+2) .. (cur_slot_end-1)];
 
-        let slot_col = col + cur_slot_start + 4;
+        let slot_col = col + s[.. *cur_slot_start].chars().count() + 4;
 
         let mut lexer = Lexer::new(directive);
 
